@@ -559,4 +559,71 @@ def nonuniformAxis (n : Nat) (c : Nat → Rat) (xmin xmax : Option Rat) (bl br :
       | none => if br || n = 1 then c (n - 1) else c (n - 1) + (c (n - 1) - c (n - 2)) / 2
     Part1.mk? ⟨n, c, lo, hi⟩
 
+/-! ### n-d derived quantities (round 4): `size`, `is_uniform`, `cell_sides`, `cell_volume`,
+`has_isotropic_cells`, `points()` and the n-d `index()` -/
+
+/-- `RectPartition.size` = `np.prod(shape)`. -/
+def ndSize : Part → Nat
+  | [] => 1
+  | p :: rest => p.n * ndSize rest
+
+/-- `RectGrid.is_uniform` = `all(is_uniform_byaxis)`; `tol p` is the `np.allclose` tolerance the code
+derives from axis `p` (`Part1.uniTol`). -/
+def ndIsUniform (tol : Part1 → Tol) (P : Part) : Bool := P.all fun p => p.isUniform (tol p)
+
+/-- `cell_sides` of all axes; `none` = the array contains a NaN (some axis is not uniform). -/
+def ndCellSides (tol : Part1 → Tol) : Part → Option (List Rat)
+  | [] => some []
+  | p :: rest => do
+      let s ← p.cellSide (tol p)
+      let r ← ndCellSides tol rest
+      some (s :: r)
+
+def prodList : List Rat → Rat
+  | [] => 1
+  | x :: r => x * prodList r
+
+/-- `cell_volume` = `float(np.prod(self.cell_sides))`; `none` = NaN. -/
+def ndCellVolume (tol : Part1 → Tol) (P : Part) : Option Rat := (ndCellSides tol P).map prodList
+
+/-- `np.allclose(a, b)` with tolerance `t` on equally long vectors: `|a - b| ≤ atol + rtol * |b|`
+entrywise. -/
+def allClose (t : Tol) : List Rat → List Rat → Bool
+  | x :: a, y :: b => isClose t x y && allClose t a b
+  | _, _ => true
+
+/-- `has_isotropic_cells` = `self.is_uniform and np.allclose(cell_sides[:-1], cell_sides[1:])`
+(`t` = NumPy's default tolerances in the code). -/
+def ndIsotropic (tol : Part1 → Tol) (t : Tol) (P : Part) : Bool :=
+  ndIsUniform tol P &&
+  match ndCellSides tol P with
+  | none => false
+  | some s => allClose t s.dropLast s.tail
+
+/-- `points()` (order `'C'`): all grid points, the last axis varying fastest. -/
+def ndPoints : Part → List (List Rat)
+  | [] => [[]]
+  | p :: rest => p.coords.flatMap fun x => (ndPoints rest).map fun w => x :: w
+
+/-- `index(value)` for an n-d point: `self.set.element(value)` (length and containment), then axis by
+axis. -/
+def ndIndex : Part → List Rat → Option (List Int)
+  | [], [] => some []
+  | p :: rest, x :: w => do
+      let i ← p.index x
+      let r ← ndIndex rest w
+      some (i :: r)
+  | _, _ => none
+
+/-! ### documented equivalences between the constructors (round 4) -/
+
+/-- `nonuniform_partition(*uniform.coord_vectors, nodes_on_bdry=flags)`: one axis. -/
+def reNonuniform (p : Part1) (bl br : Bool) : Option Part1 := nonuniformAxis p.n p.c none none bl br
+
+/-- `uniform_partition_fromgrid(uniform.grid, min_pt={i: lo_i if bl_i}, max_pt={i: hi_i if br_i})`:
+one axis (a limit with the node ON it must be given explicitly, the others are recomputed as
+"half a cell beyond the outermost node"). -/
+def reFromGrid (p : Part1) (bl br : Bool) : Option Part1 :=
+  fromGridAxis p.n p.c (if bl then some p.lo else none) (if br then some p.hi else none)
+
 end OdlModel.Partition
